@@ -42,7 +42,8 @@ ASSUMPTIONS = [
 ]
 
 TOL = {False: 1e-8, True: 1e-5}     # optimality tolerance without / with V (library uses cg rtol 1e-5)
-TOL_INTERP = 1e-5
+TOL_INTERP = 1e-7
+W_TOL = 3e-5
 _STATS = {'bfgs_gap_max': 0.0, 'bfgs_cases': 0, 'regress_gap_max': 0.0, 'interp_gap_max': 0.0}
 _STAT_DIR = '/tmp'
 
@@ -192,60 +193,58 @@ LABELS = [3, -2, 10, 0, 7, 21, 5]
 
 
 @st.composite
-def problem(draw, n_basis_range=(2, 4), allow_cov=True, max_train=5):
+def problem(draw, n_basis_range=(2, 4), independent=True, max_train=5):
+    """a fitting problem without the method: every check runs all four methods on it"""
     n = draw(st.integers(4, 6))
     P = ref.n_pairs(n)
+    # mode decisions first, bulk values last
     sel_mode = draw(st.sampled_from(['all', 'subset', 'repeats', 'repeats']))
     nan_mode = draw(st.sampled_from(['none', 'none', 'some']))
-    method = draw(st.sampled_from(METHODS if allow_cov else METHODS[:2]))
-    sigma_mode = draw(st.sampled_from(['none', 'matrix'])) if method.endswith('_cov') else 'none'
-    desc = draw(st.sampled_from(['index', 'index', 'lab']))
+    sigma_mode = draw(st.sampled_from(['none', 'matrix']))
+    desc = draw(st.sampled_from(['index', 'lab']))
     kind = draw(st.sampled_from(['mixture', 'mixture', 'unrelated']))
     k_want = draw(st.integers(*n_basis_range))
     t = draw(st.integers(1, max_train))
-    # selection
+    # selection: at least four distinct conditions (six distinct pairs)
     if sel_mode == 'all':
         idx = None
     elif sel_mode == 'subset':
         m = draw(st.integers(4, n))
-        idx = draw(st.permutations(list(range(n))))[:m]
+        idx = list(draw(st.permutations(list(range(n)))))[:m]
     else:
-        m = draw(st.integers(4, 7))
+        m = draw(st.integers(5, 7))
         idx = draw(st.lists(st.integers(0, n - 1), min_size=m, max_size=m))
-        uniq = sorted(set(idx))
-        cand = [c for c in range(n) if c not in uniq]
+        cand = [c for c in range(n) if c not in set(idx)]
         j = 0
-        while len(set(idx)) < 3:        # at least three distinct conditions
-            idx[j] = cand.pop(0)
+        while len(set(idx)) < 4:
+            # replace a duplicated entry by an unused condition
+            dup = [q for q in range(len(idx)) if idx.count(idx[q]) > 1]
+            idx[dup[0]] = cand.pop(0)
             j += 1
         if len(set(idx)) == len(idx):   # force one repeat
             idx[-1] = idx[0]
-    # common missing entries (pairs of the full RDM)
+    uniq = sorted(set(idx)) if idx is not None else list(range(n))
+    prs = ref.pairs(n)
+    live = [e for e, (i, j) in enumerate(prs) if i in uniq and j in uniq]
     nan_pairs = []
     if nan_mode == 'some':
         cnt = draw(st.integers(1, 2))
-        nan_pairs = sorted(set(draw(st.lists(st.integers(0, P - 1), min_size=cnt, max_size=cnt))))
-    # number of usable entries after sampling
-    sidx = sorted(idx) if idx is not None else list(range(n))
-    full_nan = np.zeros(P, dtype=bool)
-    full_nan[nan_pairs] = True
-    samp = ref.sample_rdm_vectors(np.where(full_nan, np.nan, 1.0)[None], n, [0], sidx)[0]
-    usable = int(np.sum(~np.isnan(samp)))
-    if usable < 5:
-        nan_pairs = []
-        full_nan[:] = False
-        samp = ref.sample_rdm_vectors(np.ones((1, P)), n, [0], sidx)[0]
-        usable = int(np.sum(~np.isnan(samp)))
-    k = max(2, min(k_want, usable - 3))
-    # basis: positive entries plus a distinct spike per basis RDM (independence by construction)
+        pos = draw(st.lists(st.integers(0, len(live) - 1), min_size=cnt, max_size=cnt))
+        nan_pairs = sorted({live[q] for q in pos})
+    usable = len(live) - len(nan_pairs)     # distinct non-missing pairs among the selected conditions
+    if independent:
+        k = max(2, min(k_want, usable - 3))
+    else:
+        k = k_want
+    # basis: positive entries plus a spike on a distinct usable pair (independence by construction)
     el = st.integers(1, 32)
+    good = [e for e in live if e not in nan_pairs]
+    order = list(draw(st.permutations(good)))
     basis = []
-    spike_pos = draw(st.permutations(list(range(P))))
     for b in range(k):
         vec = [x / 8.0 for x in draw(st.lists(el, min_size=P, max_size=P))]
-        vec[spike_pos[b]] += 6.0
+        vec[order[b % len(order)]] += 6.0
         basis.append(vec)
-    # training data over the full conditions
     data = []
     for _ in range(t):
         if kind == 'mixture':
@@ -257,24 +256,24 @@ def problem(draw, n_basis_range=(2, 4), allow_cov=True, max_train=5):
             vec = [sum(w[b] * basis[b][e] for b in range(k)) / 4.0 + amp * noise[e] for e in range(P)]
         else:
             vec = [x / 8.0 for x in draw(st.lists(el, min_size=P, max_size=P))]
-        if max(vec) == min(vec):
-            vec[0] += 1.0
+        if max(vec[e] for e in good) == min(vec[e] for e in good):
+            vec[good[0]] += 1.0
         data.append(vec)
     sigma = None
     if sigma_mode == 'matrix':
-        sigma = draw(gen.spd(len(sidx)))
+        sigma = draw(gen.spd(len(idx) if idx is not None else n))
     comps = draw(st.lists(st.lists(st.integers(-12, 12), min_size=k, max_size=k), min_size=3, max_size=5))
     deltas = draw(st.lists(st.lists(st.sampled_from([-0.25, -1 / 16.0, 0.0, 1 / 16.0, 0.25]),
                                     min_size=k, max_size=k), min_size=2, max_size=3))
     perturb = draw(st.lists(st.integers(1, 16), min_size=4, max_size=4))
-    return dict(n=n, basis=basis, data=data, nan_pairs=nan_pairs, idx=idx, method=method, sigma=sigma,
+    return dict(n=n, basis=basis, data=data, nan_pairs=nan_pairs, idx=idx, sigma=sigma,
                 desc=desc, kind=kind, comps=comps, deltas=deltas, perturb=perturb)
 
 
 class Built:
     """library objects + expanded reference vectors for a problem case"""
 
-    def __init__(self, case, basis=None):
+    def __init__(self, case, method, basis=None):
         n = case['n']
         P = ref.n_pairs(n)
         self.n = n
@@ -303,8 +302,10 @@ class Built:
         else:
             vals = [int(i) for i in idx] if self.desc == 'index' else [labs[i] for i in idx]
             self.fit_kw = dict(pattern_idx=np.array(vals), pattern_descriptor=self.desc)
-        self.sigma = None if case['sigma'] is None else np.array(case['sigma'], dtype=float)
-        self.method = case['method']
+        self.sigma = None
+        if case['sigma'] is not None and method.endswith('_cov'):
+            self.sigma = np.array(case['sigma'], dtype=float)
+        self.method = method
         self.scorer = Scorer(self.method, self.data_exp, self.n_sel, self.sigma)
         if not np.array_equal(~np.isnan(self.basis_exp[0]), self.scorer.keep):
             raise Reject('mask mismatch', 'degenerate:nan-mask')
@@ -330,7 +331,7 @@ def perturbed_basis(case, built):
 
 def problem_labels(case, prefix):
     idx = case['idx']
-    labels = [prefix + 'method:' + case['method'], prefix + 'basis=%d' % len(case['basis']),
+    labels = [prefix + 'basis=%d' % len(case['basis']),
               prefix + 'train=%d' % min(len(case['data']), 3) + ('+' if len(case['data']) >= 3 else ''),
               prefix + ('sel:none' if idx is None else 'sel:repeats' if len(set(idx)) < len(idx)
                         else 'sel:subset'),
@@ -355,7 +356,6 @@ def call_fit(fn, model, built, sig, on_error='violation', **extra):
 @st.composite
 def regress_case(draw):
     case = draw(problem())
-    case['fitter'] = draw(st.sampled_from(['regress', 'regress_nn']))
     case['normalize'] = draw(st.booleans())
     return case
 
@@ -380,22 +380,36 @@ def competitors(case, theta_fit, nonneg):
     return [(nm, th) for nm, th in out if np.any(th != 0)]
 
 
+def _sel_txt(case):
+    return ', pattern_idx=%s' % case['idx'] if case['idx'] is not None else ''
+
+
 def check_regress(case):
-    b = Built(case)
-    k = len(case['basis'])
-    if b.scorer.gram_cond(b.basis_exp) > 1e8:
+    done = 0
+    for method in METHODS:
+        b = Built(case, method)
+        if b.scorer.gram_cond(b.basis_exp) > 1e8:
+            continue
+        for fitter in ('regress', 'regress_nn'):
+            _check_regress_one(case, b, fitter)
+            done += 1
+    if not done:
         raise Reject('ill-conditioned basis', 'degenerate:ill-conditioned')
-    nn = case['fitter'] == 'regress_nn'
+
+
+def _check_regress_one(case, b, fitter):
+    k = len(case['basis'])
+    nn = fitter == 'regress_nn'
     fn = F.fit_regress_nn if nn else F.fit_regress
-    name = 'fit_' + case['fitter']
+    name = 'fit_' + fitter
+    cov = b.method.endswith('_cov')
     model = ModelWeighted('w', b.model_rdms)
     theta = call_fit(fn, model, b, 'regress:raises:' + name, normalize=case['normalize'])
     theta = np.asarray(theta, dtype=float)
     require(theta.shape == (k,), '%s returned shape %s for %d basis RDMs' % (name, theta.shape, k),
             'regress:shape')
     require(not np.isnan(theta).any(), '%s returned NaN weights' % name, 'regress:nan')
-    what = '%s(%s%s%s)' % (name, b.method, ', sigma_k' if b.sigma is not None else '',
-                            ', pattern_idx=%s' % case['idx'] if case['idx'] is not None else '')
+    what = '%s(%s%s%s)' % (name, b.method, ', sigma_k' if b.sigma is not None else '', _sel_txt(case))
     # constraints
     if nn:
         require(bool(np.all(theta >= -1e-12)), '%s: negative weight %s' % (what, core._short(theta)),
@@ -404,7 +418,7 @@ def check_regress(case):
     if case['normalize'] and nrm > 0:
         require(abs(nrm - 1) <= 1e-9, '%s normalize=True: |theta| = %r' % (what, nrm), 'regress:norm')
     # optimality
-    tol = TOL[b.method.endswith('_cov')]
+    tol = TOL[cov]
     s_fit = b.score_theta(theta)
     if nn:
         th_ref, s_ref = b.scorer.nnls(b.basis_exp)
@@ -412,18 +426,17 @@ def check_regress(case):
         th_ref = b.scorer.ls(b.basis_exp)
         s_ref = b.score_theta(th_ref)
     _stat('regress_gap_max', s_ref - s_fit)
+    tag = '%s:%s' % ('_nn' if nn else '', 'cov' if cov else 'plain')
     if not s_fit >= s_ref - tol:
         raise Violation('%s: fitted weights %s score %.10g, the %s solution %s scores %.10g' % (
             what, core._short(theta), s_fit, 'non-negative least-squares' if nn else 'least-squares',
-            core._short(th_ref), s_ref), 'regress%s:suboptimal:%s' % ('_nn' if nn else '', 'cov' if
-                                                                     b.method.endswith('_cov') else 'plain'))
+            core._short(th_ref), s_ref), 'regress%s' % tag.replace(':', ':suboptimal:', 1))
     for nm, th in competitors(case, theta if nrm > 0 else th_ref, nn):
         s = b.score_theta(th)
         if not s_fit >= s - tol:
             raise Violation('%s: fitted weights %s score %.10g but the %s competitor %s scores %.10g' % (
                 what, core._short(theta), s_fit, nm, core._short(th), s),
-                'regress%s:beaten:%s' % ('_nn' if nn else '', 'cov' if b.method.endswith('_cov')
-                                         else 'plain'))
+                'regress%s' % tag.replace(':', ':beaten:', 1))
     # normalisation only rescales
     other = np.asarray(call_fit(fn, model, b, 'regress:raises:' + name,
                                 normalize=not case['normalize']), dtype=float)
@@ -434,7 +447,7 @@ def check_regress(case):
                     what, core._short(theta / nrm), core._short(other / n_o)), 'regress:normalize-direction')
     # only the selected conditions enter
     if case['idx'] is not None and b.unselected():
-        b2 = Built(case, basis=perturbed_basis(case, b))
+        b2 = Built(case, b.method, basis=perturbed_basis(case, b))
         th2 = np.asarray(call_fit(fn, ModelWeighted('w', b2.model_rdms), b2, 'regress:raises:' + name,
                                   normalize=case['normalize']), dtype=float)
         require(bool(np.array_equal(theta, th2)),
@@ -450,14 +463,14 @@ def check_regress(case):
                                   normalize=case['normalize'], on_error='violation',
                                   sig='regress:raises:' + name), dtype=float)
         scale = max(1.0, float(np.max(np.abs(theta))))
-        require(core.close(theta, th_e, rtol=0, atol=(1e-4 if b.method.endswith('_cov') else 1e-9) * scale),
+        require(core.close(theta, th_e, rtol=0, atol=(1e-4 if cov else 1e-9) * scale),
                 '%s: differs from the fit on the explicitly duplicated conditions: %s vs %s' % (
                     what, core._short(theta), core._short(th_e)), 'regress:duplicates')
 
 
 def classify_regress(case):
     labels, nt = problem_labels(case, 'reg:')
-    labels += ['reg:' + case['fitter'], 'reg:normalize' if case['normalize'] else 'reg:raw']
+    labels += ['reg:normalize' if case['normalize'] else 'reg:raw']
     return labels, nt
 
 
@@ -466,13 +479,17 @@ def classify_regress(case):
 
 @st.composite
 def select_case(draw):
-    case = draw(problem(n_basis_range=(2, 5)))
+    case = draw(problem(n_basis_range=(2, 5), independent=False))
     case['via'] = draw(st.sampled_from(['function', 'method']))
     return case
 
 
 def check_select(case):
-    b = Built(case)
+    for method in METHODS:
+        _check_select_one(case, Built(case, method))
+
+
+def _check_select_one(case, b):
     k = len(case['basis'])
     model = ModelSelect('s', b.model_rdms)
     if case['via'] == 'function':
@@ -487,17 +504,14 @@ def check_select(case):
     scores = [b.scorer.score(b.basis_exp[c]) for c in range(k)]
     best = int(np.argmax(scores))
     if not scores[theta] >= scores[best] - 1e-9:
-        raise Violation('fit_select(%s%s) chose candidate %d (score %.10g) but candidate %d scores %.10g' % (
-            b.method, ', pattern_idx=%s' % case['idx'] if case['idx'] is not None else '', theta,
-            scores[theta], best, scores[best]), 'select:suboptimal')
+        raise Violation('fit_select(%s%s%s) chose candidate %d (score %.10g) but candidate %d scores %.10g'
+                        % (b.method, ', sigma_k' if b.sigma is not None else '', _sel_txt(case), theta,
+                           scores[theta], best, scores[best]), 'select:suboptimal')
     if case['idx'] is not None and b.unselected() and scores[theta] > sorted(scores)[-2] + 1e-9:
-        b2 = Built(case, basis=perturbed_basis(case, b))
+        b2 = Built(case, b.method, basis=perturbed_basis(case, b))
         th2 = call_fit(F.fit_select, ModelSelect('s', b2.model_rdms), b2, 'select:raises')
-        sc2 = [b2.scorer.score(b2.basis_exp[c]) for c in range(k)]
-        require(core.close(sc2, scores, rtol=0, atol=1e-12), 'harness: perturbation changed selected '
-                'entries', 'harness:perturb')
-        require(int(th2) == theta, 'fit_select: changing only unselected conditions changed the choice '
-                'from %d to %d' % (theta, int(th2)), 'select:unselected-leak')
+        require(int(th2) == theta, 'fit_select(%s): changing only unselected conditions changed the '
+                'choice from %d to %d' % (b.method, theta, int(th2)), 'select:unselected-leak')
 
 
 def classify_select(case):
@@ -510,13 +524,17 @@ def classify_select(case):
 
 @st.composite
 def interpolate_case(draw):
-    case = draw(problem(n_basis_range=(2, 5), max_train=3))
+    case = draw(problem(n_basis_range=(2, 5), independent=False, max_train=3))
     case['via'] = draw(st.sampled_from(['function', 'method']))
     return case
 
 
 def check_interpolate(case):
-    b = Built(case)
+    for method in METHODS:
+        _check_interpolate_one(case, Built(case, method))
+
+
+def _check_interpolate_one(case, b):
     k = len(case['basis'])
     model = ModelInterpolate('i', b.model_rdms)
     if case['via'] == 'function':
@@ -531,9 +549,19 @@ def check_interpolate(case):
     nz = [i for i in range(k) if theta[i] != 0]
     require(bool(np.all(theta >= -1e-12)) and abs(float(theta.sum()) - 1) <= 1e-9 and len(nz) <= 2 and
             (len(nz) < 2 or nz[1] - nz[0] == 1),
-            'fit_interpolate: theta %s is not a convex mixture of two adjacent RDMs' % core._short(theta),
-            'interpolate:structure')
+            'fit_interpolate(%s): theta %s is not a convex mixture of two adjacent RDMs' % (
+                b.method, core._short(theta)), 'interpolate:structure')
+    # the library searches each segment with bounded Brent (xatol 1e-5 in the mixing weight and
+    # never evaluates the end points): theta is credited with the best score within 3e-5 in w
     s_fit = b.score_theta(theta)
+    if len(nz) >= 1:
+        seg = min(nz[0], k - 2)
+        for dw in (-W_TOL, W_TOL):
+            w = min(1.0, max(0.0, float(theta[seg]) + dw))
+            th = np.zeros(k)
+            th[seg] = w
+            th[seg + 1] = 1 - w
+            s_fit = max(s_fit, b.score_theta(th))
     best, best_th = -np.inf, None
     for seg in range(k - 1):
         for g in range(41):
@@ -546,16 +574,16 @@ def check_interpolate(case):
                 best, best_th = s, th
     _stat('interp_gap_max', best - s_fit)
     if not s_fit >= best - TOL_INTERP:
-        raise Violation('fit_interpolate(%s%s): theta %s scores %.10g but the mixture %s scores %.10g' % (
-            b.method, ', pattern_idx=%s' % case['idx'] if case['idx'] is not None else '',
+        raise Violation('fit_interpolate(%s%s%s): theta %s scores %.10g but the mixture %s scores %.10g' % (
+            b.method, ', sigma_k' if b.sigma is not None else '', _sel_txt(case),
             core._short(theta), s_fit, core._short(best_th), best), 'interpolate:suboptimal')
     if case['idx'] is not None and b.unselected():
-        b2 = Built(case, basis=perturbed_basis(case, b))
+        b2 = Built(case, b.method, basis=perturbed_basis(case, b))
         th2 = np.asarray(call_fit(F.fit_interpolate, ModelInterpolate('i', b2.model_rdms), b2,
                                   'interpolate:raises'), dtype=float)
         require(bool(np.array_equal(theta, th2)),
-                'fit_interpolate: changing only unselected conditions changed theta from %s to %s' % (
-                    core._short(theta), core._short(th2)), 'interpolate:unselected-leak')
+                'fit_interpolate(%s): changing only unselected conditions changed theta from %s to %s' % (
+                    b.method, core._short(theta), core._short(th2)), 'interpolate:unselected-leak')
 
 
 def classify_interpolate(case):
@@ -568,23 +596,28 @@ def classify_interpolate(case):
 
 @st.composite
 def bfgs_case(draw):
-    case = draw(problem(n_basis_range=(2, 3), allow_cov=False, max_train=2))
-    case['fitter'] = draw(st.sampled_from(['optimize', 'optimize_positive']))
+    case = draw(problem(n_basis_range=(2, 3), max_train=2))
     case['seed'] = draw(st.integers(0, 2 ** 31 - 1))
     return case
 
 
 def check_bfgs(case):
-    b = Built(case)
+    for method in ('cosine', 'corr'):
+        b = Built(case, method)
+        for fitter in ('optimize', 'optimize_positive'):
+            _check_bfgs_one(case, b, fitter)
+
+
+def _check_bfgs_one(case, b, fitter):
     k = len(case['basis'])
-    pos = case['fitter'] == 'optimize_positive'
+    pos = fitter == 'optimize_positive'
     fn = F.fit_optimize_positive if pos else F.fit_optimize
-    name = 'fit_' + case['fitter']
+    name = 'fit_%s(%s)' % (fitter, b.method)
     model = ModelWeighted('w', b.model_rdms)
 
     def run(model_, built_):
         np.random.seed(case['seed'])
-        return np.asarray(call_fit(fn, model_, built_, 'bfgs:raises:' + name), dtype=float)
+        return np.asarray(call_fit(fn, model_, built_, 'bfgs:raises:fit_' + fitter), dtype=float)
     theta = run(model, b)
     require(theta.shape == (k,) and not np.isnan(theta).any(), '%s returned %s' % (name, theta),
             'bfgs:shape')
@@ -598,23 +631,23 @@ def check_bfgs(case):
     require(bool(np.array_equal(theta, again)), '%s: same seed, different theta %s vs %s' % (
         name, core._short(theta), core._short(again)), 'bfgs:reproducible')
     if case['idx'] is not None and b.unselected():
-        b2 = Built(case, basis=perturbed_basis(case, b))
+        b2 = Built(case, b.method, basis=perturbed_basis(case, b))
         th2 = run(ModelWeighted('w', b2.model_rdms), b2)
         require(bool(np.array_equal(theta, th2)),
                 '%s: changing only unselected conditions changed theta from %s to %s' % (
                     name, core._short(theta), core._short(th2)), 'bfgs:unselected-leak')
     # statistic only
-    if pos:
-        _, s_ref = b.scorer.nnls(b.basis_exp)
-    else:
-        s_ref = b.score_theta(b.scorer.ls(b.basis_exp))
-    _stat('bfgs_gap_max', s_ref - b.score_theta(theta))
-    _stat('bfgs_cases', 1, count=True)
+    if b.scorer.gram_cond(b.basis_exp) < 1e8:
+        if pos:
+            _, s_ref = b.scorer.nnls(b.basis_exp)
+        else:
+            s_ref = b.score_theta(b.scorer.ls(b.basis_exp))
+        _stat('bfgs_gap_max', s_ref - b.score_theta(theta))
+        _stat('bfgs_cases', 1, count=True)
 
 
 def classify_bfgs(case):
-    labels, nt = problem_labels(case, 'bfgs:')
-    return labels + ['bfgs:' + case['fitter']], nt
+    return problem_labels(case, 'bfgs:')
 
 
 # ---------------------------------------------------------------------------
@@ -763,14 +796,14 @@ def classify_api(case):
 
 
 SUBCHECKS = [
-    SubCheck('regress', regress_case(), check_regress, classify_regress, quick=160,
+    SubCheck('regress', regress_case(), check_regress, classify_regress, quick=100,
              doc='fit_regress / fit_regress_nn: constraints, optimal against own (G)LS / NNLS and generated '
                  'competitors, normalisation, restriction to selected conditions, duplicates'),
-    SubCheck('select', select_case(), check_select, classify_select, quick=120,
+    SubCheck('select', select_case(), check_select, classify_select, quick=80,
              doc='fit_select / ModelSelect.fit: best of all candidates (exhaustive per case)'),
-    SubCheck('interpolate', interpolate_case(), check_interpolate, classify_interpolate, quick=60,
+    SubCheck('interpolate', interpolate_case(), check_interpolate, classify_interpolate, quick=40,
              doc='fit_interpolate / ModelInterpolate.fit: convex adjacent mixture, no grid mixture better'),
-    SubCheck('bfgs', bfgs_case(), check_bfgs, classify_bfgs, quick=16,
+    SubCheck('bfgs', bfgs_case(), check_bfgs, classify_bfgs, quick=12,
              doc='fit_optimize / fit_optimize_positive: unit norm, sign, restriction, reproducibility; '
                  'optimality gap recorded only'),
     SubCheck('api', api_case(), check_api, classify_api, quick=300,
